@@ -122,9 +122,13 @@ def r2_closed_check_first(ctx):
     a = ic.calls_to(r"MethodSink::is_closed$")
     bq = ic.calls_to(r"SubscriptionSink::is_active_subscription$|IsUnsubscribed::is_unsubscribed$")
     R.check(bool(a) and bool(bq), "C04.R2", "is_closed:both-sources", "is_closed() = connection closed || unsubscribed", "is_closed() no longer consults both the connection and the unsubscribe state (conn=%d, unsub=%d)" % (len(a), len(bq)), "%s:%d" % (ic.file, ic.lo))
-    ia = F.one(r"^jsonrpsee_core::server::subscription::SubscriptionSink::is_active_subscription$")
-    neg = any(st["s"] == "assign" and st["rv"]["k"] == "un" and st["rv"]["op"] == "Not" for blk in ia.blocks for st in blk["st"])
-    R.check(bool(ia.calls_to(r"IsUnsubscribed::is_unsubscribed$")) and neg, "C04.R2", "is_active:negated-unsubscribed", "active = !unsubscribed", "is_active_subscription is not the negation of is_unsubscribed", "%s:%d" % (ia.file, ia.lo))
+    # polarity: closed = connection closed || unsubscribed. Written through the helper `is_active_subscription` (= !unsubscribed,
+    # negated again in is_closed) or directly: the number of negations between is_unsubscribed() and the result is even
+    ias = F.find(r"^jsonrpsee_core::server::subscription::SubscriptionSink::is_active_subscription$")
+    nots = lambda x: sum(1 for blk in x.blocks for st in blk["st"] if st["s"] == "assign" and st["rv"]["k"] == "un" and st["rv"]["op"] == "Not")
+    total = nots(ic) + sum(nots(x) for x in ias if ic.calls_to(r"SubscriptionSink::is_active_subscription$"))
+    reaches = bool(ic.calls_to(r"IsUnsubscribed::is_unsubscribed$")) or any(x.calls_to(r"IsUnsubscribed::is_unsubscribed$") for x in ias)
+    R.check(reaches and total % 2 == 0, "C04.R2", "is_active:negated-unsubscribed", "closed follows unsubscribed (not its negation)", "is_closed() reports the negation of the unsubscribe state (%d negations between is_unsubscribed() and the result)" % total, "%s:%d" % (ic.file, ic.lo))
 
 
 def r3_identity(ctx):
